@@ -16,7 +16,9 @@ RULE = ('cases: (a) every code of the three code tables (live entry vs the sourc
         'helper); (b) code strings over each table - all single codes, code pairs, homopolymers, random '
         'strings of length 0..200 (quick) / 0..5000 (thorough) over full / unambiguous-only / ambiguity-only / '
         'few-letter alphabets, decorated with spaces and a "*" followed by arbitrary text - compared with '
-        'the sum over residues, with a permutation of the same multiset and with the prefix route; '
+        'the sum over residues, with a permutation of the same multiset and with the prefix route (all of them on '
+        'the default table; the systematic strings and a third of the random ones also with table=<a private table '
+        'of the worker>, whose result must hold the same atoms, labile H[1] included, all taken from that table); '
         '(c) generated FASTA files (preamble text, blank lines, empty records, CRLF, missing final newline, '
         'every typed extension and untyped ones), each read as an open file, a StringIO and as the same lines '
         '(newline-terminated and bare) in a list, tuple, deque, re-iterable object, generator and list '
@@ -87,6 +89,12 @@ def setup(ctx):
     ctx.info['reference_route'] = R.route
     ctx.note('reference model route: %s - %s' % (R.route, R.route_note))
     ctx.count('reference.route.' + R.route)
+    # a private periodic table for the prefix route with table= (public constructors and loaders only)
+    from periodictable import core, mass, density
+    T = core.PeriodicTable('c18_private_%d' % ctx.shard)
+    mass.init(T)
+    density.init(T)
+    _state['private'] = T
     reach = Reach()
     reach.watch(fasta.Sequence.__init__, 'Sequence.__init__')
     reach.watch(fasta.Molecule.__init__, 'Molecule.__init__')
@@ -128,6 +136,10 @@ def finish(ctx):
     ctx.require('reach.guess_type', 10, 'the extension typing must be exercised')
     ctx.require('reach.formula.prefix_dispatch', 50, 'formula() must take the sequence-prefix branch')
     ctx.require('eval.prefix', 50, 'the prefix route must have been compared with the sequence classes')
+    ctx.require('eval.prefix-private-table', 50,
+                'the prefix route with a private table must have been compared with the sequence classes')
+    ctx.require('prefix_private.labile_hydrogen', 20,
+                'prefix formulas on a private table must hold labile hydrogen H[1] next to ordinary H')
     ctx.require('eval.table-row', 61, 'every row of the three code tables must be compared')
     for ext in sorted(EXT_TYPE):
         ctx.require('ext.' + ext, 2, 'files with the typed extension %s must be loaded' % ext)
@@ -337,26 +349,26 @@ def generate(ctx):
         for c in codes:
             for rep in (1, 2, 7):
                 if ctx.mine(i):
-                    yield 'sequence', {'type': typ, 'raw': c * rep}
+                    yield 'sequence', {'type': typ, 'raw': c * rep, 'private_table': rep != 2}
                 i += 1
         if ctx.thorough():
             for a in codes:
                 for b in codes:
                     if a != b:
                         if ctx.mine(i):
-                            yield 'sequence', {'type': typ, 'raw': a + b}
+                            yield 'sequence', {'type': typ, 'raw': a + b, 'private_table': i % 4 == 0}
                         i += 1
         for raw in ['', ' ', '   ', '*', '*' + codes[0], ' * ', codes[0] + '*', codes[0] + ' *' + codes[1],
                     codes[0] + '**' + codes[1], ' ' + codes[0] + ' ', codes[0] + '*xyz 123']:
             if ctx.mine(i):
-                yield 'sequence', {'type': typ, 'raw': raw}
+                yield 'sequence', {'type': typ, 'raw': raw, 'private_table': True}
             i += 1
-    # random strings
+    # random strings (every third also through the prefix route with the worker's private table)
     types = sorted(R.residue)
     for n in range(ctx.scale(1500, 3000)):
         typ = types[n % len(types)]
         seq = _random_codes(ctx, R, typ, _length(ctx))
-        yield 'sequence', {'type': typ, 'raw': _decorate(ctx, seq)}
+        yield 'sequence', {'type': typ, 'raw': _decorate(ctx, seq), 'private_table': n % 9 < 3}
     for n in range(ctx.scale(400, 800)):
         typ = types[n % len(types)]
         seq = _random_codes(ctx, R, typ, max(2, _length(ctx)))
@@ -506,6 +518,47 @@ def check_sequence(ctx, case):
         if 'labile_density' in e:
             _cmp(ctx, f.density, e['labile_density'], 'formula(%r)' % (typ + ':' + raw)[:80], 'density(prefix)',
                  route='prefix')
+    # prefix route with a private table
+    if case.get('private_table'):
+        _check_prefix_private(ctx, typ, raw, S)
+
+
+def _private_table():
+    """The worker's private table (built on demand in a replay)."""
+    T = _state.get('private')
+    if T is None:
+        from periodictable import core, mass, density
+        T = core.PeriodicTable('c18_private_replay_%d' % os.getpid())
+        mass.init(T)
+        density.init(T)
+        _state['private'] = T
+    return T
+
+
+def _check_prefix_private(ctx, typ, raw, S):
+    """formula('<type>:<codes>', table=T) for a private table T: the same atoms (Z, A, charge) and counts as the
+    sequence class's labile formula - labile hydrogen stays H[1] - and every atom is T's own object."""
+    from periodictable import formula, elements
+    from .. import atoms as A
+    T = _private_table()
+    text = typ + ':' + raw
+    what = 'formula(%r, table=<private table>)' % text[:80]
+    f = formula(text, table=T)
+    ctx.evaluated(what='prefix-private-table')
+    want = _live_atoms(S.labile_formula)
+    if (1, 1, 0) in want and (1, 0, 0) in want:
+        ctx.count('prefix_private.labile_hydrogen')
+    if not _cmp_atoms(ctx, _live_atoms(f), want, what + ' against Sequence.labile_formula', route='prefix-private'):
+        return
+    for a in f.atoms:
+        k = A.key(a)
+        ctx.evaluated(what='prefix-private-table-atom')
+        if A.lookup(T, k) is not a:
+            ctx.violation('%s: its atom %s is not the private table\'s own %s%s'
+                          % (what, a, A.lookup(T, k), ' (it is the default table\'s)' if A.lookup(elements, k) is a else ''),
+                          field='prefix-private-atom', route='prefix-private')
+            return
+    _cmp(ctx, f.mass, S.labile_formula.mass, what, 'mass(prefix, private table)', route='prefix-private')
 
 
 def check_permutation(ctx, case):
